@@ -436,13 +436,13 @@ func quickStrata() []*stratum {
 		{name: "q-exh-1tok-lit", k: 1, exhaustive: true, leaves: L, lits: [][]string{ab},
 			nExact: []shapeKey{{1, 0}, {2, 0}}},
 		{name: "q-1prod", k: 1, nmax: 4, wmax: 2, leaves: L, lits: noLit, quota: 260},
-		{name: "q-2prod", k: 2, nmax: 4, wmax: 2, leaves: L, lits: noLit, quota: 420},
-		{name: "q-3prod", k: 3, nmax: 4, wmax: 2, leaves: L, lits: noLit, quota: 420},
+		{name: "q-2prod", k: 2, nmax: 4, wmax: 2, leaves: L, lits: noLit, quota: 380},
+		{name: "q-3prod", k: 3, nmax: 4, wmax: 2, leaves: L, lits: noLit, quota: 380},
 		{name: "q-1prod-lit", k: 1, nmax: 4, wmax: 2, leaves: L, lits: [][]string{ab}, quota: 120},
 		{name: "q-2prod-lit", k: 2, nmax: 4, wmax: 2, leaves: L, lits: [][]string{ab}, quota: 200},
 		{name: "q-3prod-lit", k: 3, nmax: 4, wmax: 2, leaves: L, lits: [][]string{ab}, quota: 200},
-		{name: "q-2prod-reg", k: 2, nReg: 1, nmax: 4, wmax: 2, leaves: L, lits: [][]string{nil, nil, ab}, quota: 450},
-		{name: "q-3prod-reg", k: 3, nReg: 1, nmax: 4, wmax: 2, leaves: L, lits: [][]string{nil, nil, ab}, quota: 550},
+		{name: "q-2prod-reg", k: 2, nReg: 1, nmax: 4, wmax: 2, leaves: L, lits: [][]string{nil, nil, ab}, quota: 400},
+		{name: "q-3prod-reg", k: 3, nReg: 1, nmax: 4, wmax: 2, leaves: L, lits: [][]string{nil, nil, ab}, quota: 480},
 	}
 }
 
@@ -455,15 +455,15 @@ func thoroughStrata() []*stratum {
 			nExact: []shapeKey{{1, 0}, {1, 1}, {1, 2}, {2, 0}, {2, 1}}},
 		{name: "t-exh-1tok-lit", k: 1, exhaustive: true, leaves: L, lits: onlyLits,
 			nExact: []shapeKey{{1, 0}, {2, 0}}},
-		{name: "t-1prod", k: 1, nmax: 5, wmax: 3, leaves: L, lits: lits, quota: 6000},
-		{name: "t-2prod", k: 2, nmax: 5, wmax: 3, leaves: L, lits: lits, quota: 12000},
-		{name: "t-3prod", k: 3, nmax: 5, wmax: 3, leaves: L, lits: lits, quota: 12000},
-		{name: "t-4prod", k: 4, nmax: 5, wmax: 3, leaves: L, lits: lits, quota: 10000},
-		{name: "t-2prod-reg", k: 2, nReg: 1, nmax: 5, wmax: 3, leaves: L, lits: lits, quota: 6000},
-		{name: "t-3prod-reg", k: 3, nReg: 1, nmax: 5, wmax: 3, leaves: L, lits: lits, quota: 8000},
-		{name: "t-4prod-reg", k: 4, nReg: 1, nmax: 5, wmax: 3, leaves: L, lits: lits, quota: 6000},
-		{name: "t-3prod-2reg", k: 3, nReg: 2, nmax: 5, wmax: 3, leaves: L, lits: lits, quota: 4000},
-		{name: "t-4prod-2reg", k: 4, nReg: 2, nmax: 5, wmax: 3, leaves: L, lits: lits, quota: 4000},
+		{name: "t-1prod", k: 1, nmax: 5, wmax: 3, leaves: L, lits: lits, quota: 5000},
+		{name: "t-2prod", k: 2, nmax: 5, wmax: 3, leaves: L, lits: lits, quota: 9000},
+		{name: "t-3prod", k: 3, nmax: 5, wmax: 3, leaves: L, lits: lits, quota: 9000},
+		{name: "t-4prod", k: 4, nmax: 5, wmax: 3, leaves: L, lits: lits, quota: 8000},
+		{name: "t-2prod-reg", k: 2, nReg: 1, nmax: 5, wmax: 3, leaves: L, lits: lits, quota: 5000},
+		{name: "t-3prod-reg", k: 3, nReg: 1, nmax: 5, wmax: 3, leaves: L, lits: lits, quota: 6000},
+		{name: "t-4prod-reg", k: 4, nReg: 1, nmax: 5, wmax: 3, leaves: L, lits: lits, quota: 5000},
+		{name: "t-3prod-2reg", k: 3, nReg: 2, nmax: 5, wmax: 3, leaves: L, lits: lits, quota: 3000},
+		{name: "t-4prod-2reg", k: 4, nReg: 2, nmax: 5, wmax: 3, leaves: L, lits: lits, quota: 3000},
 	}
 }
 
